@@ -374,6 +374,103 @@ theorem unsorted_flags_refused (op : Opts) (hsort : op.sort = false) (h : op.all
   · simp [hsort, h]
   · cases hd : op.allowDuplicate <;> simp [hsort, h]
 
+/-! ## declared gaps, spacing hints -/
+
+/-- **stacks with declared gaps are recognised** (`allow_missing_positions`): planes `o + k_j·s·n` for the present
+planes `j = 0 … M` (plane numbers `k` strictly increasing, `k 0 = 0`, any gaps), input in ANY order, duplicates when
+declared, any non-negative tolerances; the spacing is taken from a matching hint, or — without hint — from two present
+neighbours (`k (j+1) = k j + 1` for some `j`; `s` not within `1e-5` of zero).  Answer: `s` and the plane number of
+every row (`k_i − min k`). -/
+theorem gaps_recognised (ori : List Rat) (oo : Ori) (hori : Ori.ofList ori = some oo)
+    (ho : OrthoPair oo.row oo.col) {cv : Char × Char} (hcv : cv ∈ validConventions) (op : Opts)
+    (hconv : op.conv = [cv.1, cv.2]) (hsort : op.sort = true) (hmiss : op.allowMissing = true)
+    {hint : Option Rat} {rtol atol : Rat} (hopts : normaliseOpts op = .ok (hint, rtol, atol)) (hr : 0 ≤ rtol) (ha : 0 ≤ atol)
+    (o : V3) {s : Rat} (hs : 0 < s) (k : Nat → Nat) (hk : StrictMono k) (hk0 : k 0 = 0)
+    (js : List Nat) {M : Nat} (hM : 1 ≤ M) (hmem : ∀ j, j ∈ js ↔ j < M + 1)
+    (hdup : op.allowDuplicate = true ∨ js.Nodup)
+    (hsp : hint = some s ∨ (hint = none ∧ (∃ j, j < M ∧ k (j + 1) = k j + 1) ∧ isClose s 0 npRtol eqTol = false)) :
+    getVolumePositions ((js.map fun j => planePos o (normalSpec oo cv op.rightHanded) s (k j)).map rowOf) ori op
+      = .ok (some (s, js.map fun j => ((k j : Nat) : Int))) := by
+  have hn := normalSpec_unit oo ho hcv op.rightHanded
+  have hlen : 2 ≤ js.length := by
+    have h0 : 0 ∈ js := (hmem 0).mpr (by omega)
+    have h1 : 1 ∈ js := (hmem 1).mpr (by omega)
+    match js, h0, h1 with
+    | [], h0, _ => cases h0
+    | [a], h0, h1 => simp at h0 h1; omega
+    | _ :: _ :: _, _, _ => simp
+  rw [getVolumePositions_rows _ js hlen ori oo hori hcv op hconv hopts]
+  exact volumePositionsOf_gaps o _ hn hs k hk hk0 js hM hmem op hsort hmiss hdup hint hsp hr ha
+
+/-! ### open finding C11-hint-drift (code left as it is, model mirrors it)
+
+FULL STATEMENT that the property suggests and that does NOT hold of the code: "with gaps allowed, a spacing hint
+within the relative tolerance of the true spacing yields the plane numbers" (`gaps_recognised` with
+`isClose s h rtol atol` instead of `hint = some s`).  The gaps branch takes the hint as THE spacing and accepts
+`|m − round m| ≤ atol + rtol·round m` for the multiples `m`, a tolerance that grows with the plane number; the rounded
+multiples of long stacks are then wrong.  `gaps_recognised` above is the part that holds (exact hint, or no hint);
+the two theorems below are concrete witnesses, replayed on the implementation by every run (KNOWN-FINDING). -/
+
+/-- six planes `0 … 5`, hint 1.25 with a user tolerance of 25 %: accepted, planes 2 and 3 share index 2 -/
+theorem counterexample_hint_within_tolerance_collides :
+    getVolumePositions [[0, 0, 0], [0, 0, 1], [0, 0, 2], [0, 0, 3], [0, 0, 4], [0, 0, 5]] [1, 0, 0, 0, -1, 0]
+      { allowMissing := true, hint := some (5 / 4), rtol := some (1 / 4) } = .ok (some (5 / 4, [0, 1, 2, 2, 3, 4])) := by
+  decide +kernel
+
+/-- 100 planes with spacing 1, hint 1.009 and the DEFAULT tolerance (1 %): accepted, planes 56 and 57 share index 56 -/
+theorem counterexample_hint_default_tolerance_collides :
+    (getVolumePositions ((List.range 100).map fun k => [0, 0, (k : Rat)]) [1, 0, 0, 0, -1, 0]
+      { allowMissing := true, hint := some (1009 / 1000) }).map (Option.map fun r => (r.1, r.2[56]?, r.2[57]?))
+      = .ok (some (1009 / 1000, some 56, some 56)) := by
+  decide +kernel
+
+/-- a hint normalises to its absolute value; a zero hint is refused -/
+theorem hint_options (h : Rat) (hh : h ≠ 0) : normaliseOpts { hint := some h } = .ok (some (rabs h), 1 / 100, 0) := by
+  unfold normaliseOpts rabs
+  by_cases hneg : h < 0
+  · have : ¬ -h = 0 := by intro e; apply hh; linarith
+    simp [hneg, this, bind, Except.bind, pure, Except.pure, defaultRtol]
+  · simp [hneg, hh, bind, Except.bind, pure, Except.pure, defaultRtol]
+
+theorem zero_hint_refused : normaliseOpts { hint := some 0 } = .error .value := by decide +kernel
+
+/-- **spacing hints without gaps**: for a stack along a line (any input order, duplicates when declared) a hint
+within tolerance of the mean spacing changes nothing, any other hint is reported as an error. -/
+theorem hint_checked (nrm : V3) (f : Nat → V3) (g : Nat → Rat) (hfg : ∀ j, nrm.dot (f j) = g j)
+    (hg : StrictMono g) (js : List Nat) {M : Nat} (hM : 1 ≤ M) (hmem : ∀ j, j ∈ js ↔ j < M + 1) (op : Opts)
+    (hsort : op.sort = true) (hmiss : op.allowMissing = false) (hdup : op.allowDuplicate = true ∨ js.Nodup)
+    (h rtol atol : Rat) :
+    volumePositionsOf nrm (js.map f) op (some h) rtol atol
+      = if isClose ((g M - g 0) / (M : Rat)) h rtol atol then volumePositionsOf nrm (js.map f) op none rtol atol
+        else .error .runtime := by
+  rw [volumePositionsOf_line nrm f g hfg hg js hM hmem op hsort hmiss hdup rtol atol]
+  by_cases hc : isClose ((g M - g 0) / (M : Rat)) h rtol atol = true
+  · simp only [hc, if_true]
+    have := volumePositionsOf_lift nrm f g hfg hg js hM hmem op hsort hdup (some h) rtol atol Int.ofNat
+      (.ok (if ((diffs ((List.range (M + 1)).map g)).all fun x => isClose x ((g M - g 0) / (M : Rat)) rtol atol)
+                && isPerpendicular nrm ((f M).sub (f 0)) then some ((g M - g 0) / (M : Rat)) else none))
+      (fun js' hp' => by
+        rw [hmiss, examine_line_hint nrm f g hfg hg hM hp' h rtol atol op.enforce, if_pos hc,
+          examine_line nrm f g hfg hg hM hp' rtol atol op.enforce]
+        simp only [Except.map]
+        split_ifs <;> rfl)
+    rw [this]
+    simp only [Except.map]
+    split_ifs <;> rfl
+  · simp only [hc, Bool.false_eq_true, if_false]
+    have := volumePositionsOf_lift nrm f g hfg hg js hM hmem op hsort hdup (some h) rtol atol Int.ofNat
+      (.error .runtime)
+      (fun js' hp' => by
+        rw [hmiss, examine_line_hint nrm f g hfg hg hM hp' h rtol atol op.enforce, if_neg hc]
+        rfl)
+    rw [this]; rfl
+
+/-- gaps, evaluated: planes 0, 1, 3, 4 of a stack with spacing 1/8 given as 1, 0, 4, 3 -/
+example : getVolumePositions [[0, 0, -1 / 8], [0, 0, 0], [0, 0, -4 / 8], [0, 0, -3 / 8]] [1, 0, 0, 0, 1, 0]
+    { allowMissing := true } = .ok (some (1 / 8, [1, 0, 4, 3])) := by decide +kernel
+example : StrictMono (fun j : Nat => if j < 2 then j else j + 1) := by
+  intro a b h; simp only; split_ifs <;> omega
+
 /-! ## non-vacuity -/
 
 /-- the unit normal of the axial orientation in the volume convention is −z -/
